@@ -56,6 +56,14 @@ const (
 	// and CBDT, so for a font without glyf/CFF/CFF2 it has no extents at all
 	// and skips fallback mark positioning / extents-based vertical origins.
 	ClsBitmapOnly = "skew(c) capability: font without outline tables (bitmap only), extents consulted (mark in text or vertical direction)"
+	// (c14) Tifinagh can be written in either direction: upstream added it to
+	// the scripts without a native horizontal direction (next to Old Hungarian,
+	// Old Italic and Runic, issue #1000 list) after 6.0.0, and the port has it.
+	// For an RTL Tifinagh run 6.0.0 therefore reverses graphemes (LTR is
+	// "native"), the port shapes RTL directly and reverses glyphs at the end:
+	// DejaVuSans U+2D30 U+0302 U+2D31 RTL gives [b2, b1, mark] in 6.0.0 and
+	// [b2, mark, b1] in the port. Found by the letter-mark pair sweep (U+2D7F).
+	ClsTifinaghRTL = "skew(c) capability: right-to-left Tifinagh run (Tifinagh became a script without native direction after 6.0.0)"
 	// (c7b) HarfBuzz takes the extents of a COLRv1 base glyph from the COLR
 	// ClipList (hb_ot_get_glyph_extents asks COLR before glyf); go-text does
 	// not implement COLR, so an empty 'glyf' entry has zero extents. Witness:
@@ -260,6 +268,9 @@ func InputSkew(p *Pair, c *Case, rs Resolved, cat string, sk *Skew) string {
 		return ClsArabFallback
 	}
 	vertical := rs.Dir == hbref.DirTTB || rs.Dir == hbref.DirBTT
+	if rs.Script == hbref.Tag("Tfng") && rs.Dir == hbref.DirRTL {
+		return ClsTifinaghRTL
+	}
 	if fi.COLR {
 		if vertical {
 			return ClsCOLR
